@@ -262,7 +262,7 @@ fn index_args(m: &VecModel, v: u64, extra: &[u16], full: bool) -> Vec<usize> {
     out
 }
 
-fn check_wm(wm: &WaveletMatrix, m: &VecModel, case: &Case, rep: &mut Report) -> Result<(), Fail> {
+pub fn check_wm(wm: &WaveletMatrix, m: &VecModel, case: &Case, rep: &mut Report) -> Result<(), Fail> {
     let n = m.vals.len();
     ensure_eq!(wm.len(), n, "WaveletMatrix.len", "len()");
     ensure_eq!(wm.is_empty(), n == 0, "WaveletMatrix.is_empty", "is_empty()");
@@ -345,7 +345,7 @@ fn check_wm(wm: &WaveletMatrix, m: &VecModel, case: &Case, rep: &mut Report) -> 
     Ok(())
 }
 
-fn check_core(core: &WMCore, m: &VecModel, case: &Case) -> Result<(), Fail> {
+pub fn check_core(core: &WMCore, m: &VecModel, case: &Case) -> Result<(), Fail> {
     let n = m.vals.len();
     ensure_eq!(core.len(), n, "WMCore.len", "len()");
     ensure_eq!(core.width(), m.width, "WMCore.width", "width()");
